@@ -48,17 +48,26 @@ fn runtime_ctx() -> Runtime<Ctx<HostCtx>> {
 fn quiet<T>(f: impl FnOnce() -> T) -> T {
     use std::io::Write;
     let _ = std::io::stdout().flush();
-    unsafe {
+    /// puts stdout back also when `f` panics (a panicking runner is caught and reported per case)
+    struct Restore(i32, i32);
+    impl Drop for Restore {
+        fn drop(&mut self) {
+            use std::io::Write;
+            let _ = std::io::stdout().flush();
+            unsafe {
+                libc::dup2(self.0, 1);
+                libc::close(self.0);
+                libc::close(self.1);
+            }
+        }
+    }
+    let _restore = unsafe {
         let saved = libc::dup(1);
         let null = libc::open(c"/dev/null".as_ptr(), libc::O_WRONLY);
         libc::dup2(null, 1);
-        let r = f();
-        let _ = std::io::stdout().flush();
-        libc::dup2(saved, 1);
-        libc::close(saved);
-        libc::close(null);
-        r
-    }
+        Restore(saved, null)
+    };
+    f()
 }
 
 // ---------------------------------------------------------------- generator
@@ -1472,7 +1481,20 @@ fn main() {
             let mut drv = Model::spawn();
             for idx in from..from + n {
                 println!("START {idx}");
-                api_case(&mut rep, &mut drv, seed, idx);
+                // a panic of the runner (an `unwrap` in get_tests, …) is caught here, so that the
+                // findings of the other cases of the batch are kept; aborts and traps still end
+                // the process and are reported by the parent
+                let r = std::panic::catch_unwind(std::panic::AssertUnwindSafe(|| api_case(&mut rep, &mut drv, seed, idx)));
+                if let Err(e) = r {
+                    let msg = e.downcast_ref::<String>().cloned().or_else(|| e.downcast_ref::<&str>().map(|s| s.to_string())).unwrap_or_default();
+                    let case = api_case_for(seed, idx);
+                    take_log();
+                    rep.violation(
+                        "process died (trap/abort/hang) while compiling or running the tests of a generated script",
+                        "test runner crash",
+                        json!({"part": "api", "seed": seed, "index": idx, "case": case_json(&case, false), "ended": format!("panic: {}", msg.chars().take(300).collect::<String>())}),
+                    );
+                }
             }
         }
         Some("replay") => {
